@@ -276,24 +276,42 @@ def oracle_c06(script, ig, mg):
     fails = []
     verdicts = impl_judged(script, ig)
     rej = [i for i, v in sorted(verdicts.items()) if v.startswith("err")]
+    # a batch whose first k entries are accepted: k entry-level writes followed
+    # by a rejected one; the rejected entry must leave no trace beyond them
+    accepted = {}
+    for i in rej:
+        m = re.search(r" accepted=(\d+)$", verdicts[i])
+        if m:
+            accepted[i] = int(m.group(1))
+            verdicts[i] = verdicts[i][:m.start()]
     for i in rej:
         want = "ret " + verdicts[i]
         if ret_kind(ig[i].line) != want:
             fails.append(("rejected-call-not-refused", {"group": i, "impl": ig[i].line, "spec": want}))
             return fails
+        if i in accepted:
+            continue  # judged through the twin below (the batch cut down to its accepted prefix)
         before, after = bracket(ig, i)
         if before != after:
             fails.append(("rejected-call-changed-state", {"group": i, "before": before, "after": after}))
             return fails
     if rej:
         prim_idx = [k for k, l in enumerate(script) if l.split()[0] not in NO_OUTPUT]
-        drop = {prim_idx[i] for i in rej if i < len(prim_idx)}
-        twin = [l for k, l in enumerate(script) if k not in drop]
+        drop = {prim_idx[i] for i in rej if i < len(prim_idx) and i not in accepted}
+        cut = {prim_idx[i]: accepted[i] for i in rej if i < len(prim_idx) and i in accepted}
+        twin, skip_twin = [], set()
+        for k, l in enumerate(script):
+            if k in drop:
+                continue
+            if k in cut:
+                l = " ".join(l.split()[:1 + cut[k]])
+                skip_twin.add(sum(1 for x in twin if x.split()[0] not in NO_OUTPUT))
+            twin.append(l)
         ti, _, _ = core.run_one(twin, "twin")
         tg = core.groups_of(ti)
         rs = set(rej)
         full = [c06_obs(g) for k, g in enumerate(ig) if k not in rs]
-        tw = [c06_obs(g) for g in tg]
+        tw = [c06_obs(g) for k, g in enumerate(tg) if k not in skip_twin]
         if full != tw:
             k = next((j for j in range(min(len(full), len(tw))) if full[j] != tw[j]), min(len(full), len(tw)))
             fails.append(("history-differs-from-twin-without-rejected-calls",
@@ -395,6 +413,7 @@ def oracle_c11(script, ig, mg):
     end = None
     state_after = {}  # chunk id -> st line expected in its head
     last_st = None
+    partial_extra = 0  # records of accepted prefixes of refused batches
     for i, cmd in enumerate(prim):
         if i >= len(ig):
             break
@@ -429,6 +448,27 @@ def oracle_c11(script, ig, mg):
                 if off + size != int(heads[0][3]):
                     fails.append(("segment-does-not-abut-next-chunk", {"group": i, "ret": g.line, "evs": g.evs}))
                     return fails
+        if w == "app" and g.line.startswith("ret err") and len(cmd.split()) > 2:
+            # a batch whose leading entries were accepted (entry-level writes) before a
+            # later entry was refused: their records are journalled, no segment is returned
+            nxt = [ig[j].line for j in (i + 1, i + 2) if j < len(ig)]
+            st2 = next((x for x in nxt if x.startswith("st ") and x != "st none"), None)
+            stat2 = next((x for x in nxt if x.startswith("stat ")), None)
+            k = 0
+            if st2 is not None:
+                last2 = dict(x.split("=", 1) for x in st2.split()[1:])["last"]
+                last1 = dict(x.split("=", 1) for x in last_st.split())["last"] if last_st else "-"
+                ids_b = [",".join(e.split(",")[:2]) for e in cmd.split()[1:]]
+                if last2 in ids_b and last2 != last1:
+                    k = ids_b.index(last2) + 1
+            if st2 is None or stat2 is None:
+                return fails  # cannot follow the journal end without the queries
+            partial_extra += k
+            m = re.search(r"open=(\d+):(\d+):(\d+):(\d+):", stat2)
+            if k and m:
+                end = int(m.group(3))
+            for h in heads:
+                state_after[int(h[3])] = None
         if g.line.startswith("st ") and g.line != "st none":
             last_st = g.line[3:]
             for cid in state_after:
@@ -499,7 +539,7 @@ def oracle_c11(script, ig, mg):
     on_disk = sorted(o for cid in ids for (idx, o2, sz, tx) in files[cid] if idx > 0 for o in [cid + o2])
     exp_offs = sorted(off for off, _, _, _, n in expected if off >= lo)
     batch_extra = sum(n - 1 for off, _, _, _, n in expected if off >= lo)
-    if len(on_disk) < len(exp_offs) or len(on_disk) > len(exp_offs) + batch_extra + sum(
+    if len(on_disk) < len(exp_offs) or len(on_disk) > len(exp_offs) + batch_extra + partial_extra + sum(
             n - 1 for off, _, _, _, n in expected if off < lo):
         fails.append(("record-count-differs-from-accepted-writes",
                       {"on_disk": len(on_disk), "accepted_last_records": len(exp_offs)}))
@@ -1466,7 +1506,7 @@ PROPS.update({
                 explanation="chunk deletion", assumptions=OS_ASSUMPTIONS),
     "C14": dict(theorems=['c14_worker_terminates_measure', 'c14_fuel_bound', 'c14_fuel_sufficient', 'c14_todoOK_reachable', 'c14_todoOK_invariant', 'c14_worker_terminates', 'c14_worker_terminates_any', 'c14_drop_state', 'c14_after_drop_nothing_moves', 'c14_drop_quiesces', 'c14_drop_none', 'c14_drop_quiesces_reachable', 'c14_drop_quiesces_system'], gen=scripts_c14, project=proj_events, oracle=oracle_c14,
                 explanation="drop quiesces", assumptions=OS_ASSUMPTIONS),
-    "C07": dict(theorems=['c07_refines_noCache', 'c07_refinesNoCache_step', 'c07_readInv_spec', 'c07_resident_or_on_disk', 'c07_boundary_written', 'c07_read_of_inv', 'c07_inv_fresh', 'c07_inv_call', 'c07_inv_flush', 'c07_inv_worker', 'c07_inv_workerIdle', 'c07_inv_drain', 'c07_inv_reachable', 'c07_reads_partial', 'c07_worker_steps_invisible', 'c07_cache_limits_invisible'], gen=scripts_c07, project=proj_c07, oracle=oracle_c07,
+    "C07": dict(modules=["C07", "C07Trunc"], theorems=['c07t_appendsFresh_iff', 'c07t_readInv_spec', 'c07t_inv_fresh', 'c07t_inv_call', 'c07t_inv_truncate', 'c07t_inv_flush', 'c07t_inv_worker', 'c07t_inv_workerIdle', 'c07t_inv_drain', 'c07t_read_of_inv', 'c07t_resident_or_on_disk', 'c07t_inv_reachable', 'c07_reads_with_truncate', 'c07t_appendsFresh_of_noTruncate', 'c07_reads_partial_of_with_truncate', 'c07t_worker_steps_invisible', 'c07t_cache_limits_invisible'] + ['c07_refines_noCache', 'c07_refinesNoCache_step', 'c07_readInv_spec', 'c07_resident_or_on_disk', 'c07_boundary_written', 'c07_read_of_inv', 'c07_inv_fresh', 'c07_inv_call', 'c07_inv_flush', 'c07_inv_worker', 'c07_inv_workerIdle', 'c07_inv_drain', 'c07_inv_reachable', 'c07_reads_partial', 'c07_worker_steps_invisible', 'c07_cache_limits_invisible'], gen=scripts_c07, project=proj_c07, oracle=oracle_c07,
                 explanation="reads independent of cache/worker", assumptions=OS_ASSUMPTIONS),
     "C02": dict(theorems=['c02_smApply_cache_free', 'c02_smApply_independent_of_cache', 'c02_replay_spec', 'c02_replay_fresh', 'c02_replay_call', 'c02_replay_flush', 'c02_replay_worker', 'c02_replay_workerIdle', 'c02_replay_drain', 'c02_replay_invariant', 'c02_linked_files', 'c02_restart_step', 'c02_clean_restart', 'c02_refinement_continues', 'c02_history_after_restart', 'c02_removed_needed', 'c02_cycles', 'c02_restart_refines', 'c02_cycles_refines'], gen=scripts_c02, project=proj_c02, oracle=oracle_c02,
                 explanation="clean restart equivalence", assumptions=OS_ASSUMPTIONS),
